@@ -55,6 +55,38 @@ HYB = {'hybrid_ndarray.*resize': 3, 'detail_init_': 3}
 # flip_slices for a compile-time rank 3: `for i < dim` has the constant trip count 3
 FLIP = {'flip_slices__rintegral_constant_i_3': 4}
 UNITS = [
+    # concrete-geometry bounded units: the real rearranging views end to end (decorator / indexing_t / indexer / ndarray glue)
+    Unit('k.transpose_axes.bounded', 'c03k', 'verif_k_transpose_axes', mode='bp', plain=True, unwind=8, unwind_loops={'.': 8}, timeout=1500, object_bits=12,
+         bounded='one concrete geometry, symbolic int elements, all loops unwound 8 times', waive=[r'arithmetic overflow on (signed to unsigned|unsigned to signed) type conversion'],
+         clause='transpose with explicit axes (2,0,1) of a (1,2,3) array: shape and every element as NumPy'),
+    Unit('k.swapaxes.bounded', 'c03k', 'verif_k_swapaxes', mode='bp', plain=True, unwind=8, unwind_loops={'.': 8}, timeout=1500, object_bits=12,
+         bounded='one concrete geometry, symbolic int elements, all loops unwound 8 times', waive=[r'arithmetic overflow on (signed to unsigned|unsigned to signed) type conversion'],
+         clause='swapaxes(0,2) of a (1,2,3) array: shape and every element as NumPy'),
+    Unit('k.moveaxis.bounded', 'c03k', 'verif_k_moveaxis', mode='bp', plain=True, unwind=8, unwind_loops={'.': 8}, timeout=1500, object_bits=12,
+         bounded='one concrete geometry, symbolic int elements, all loops unwound 8 times', waive=[r'arithmetic overflow on (signed to unsigned|unsigned to signed) type conversion'],
+         clause='moveaxis(-1,0) of a (1,2,3) array: shape and every element as NumPy'),
+    Unit('k.expand_dims.bounded', 'c03k', 'verif_k_expand_dims', mode='bp', plain=True, unwind=8, unwind_loops={'.': 8}, timeout=1500, object_bits=12,
+         bounded='one concrete geometry, symbolic int elements, all loops unwound 8 times', waive=[r'arithmetic overflow on (signed to unsigned|unsigned to signed) type conversion'],
+         clause='expand_dims(1) of a (2,3) array: shape and every element as NumPy'),
+    Unit('k.expand_dims_list.bounded', 'c03k', 'verif_k_expand_dims_list', mode='bp', plain=True, unwind=8, unwind_loops={'.': 8}, timeout=1500, object_bits=12,
+         bounded='one concrete geometry, symbolic int elements, all loops unwound 8 times', waive=[r'arithmetic overflow on (signed to unsigned|unsigned to signed) type conversion'],
+         clause='expand_dims with a list of negative axes (-1,-2) of a (2,3) array: shape (2,3,1,1) and every element as NumPy'),
+    Unit('k.squeeze.bounded', 'c03k', 'verif_k_squeeze', mode='bp', plain=True, unwind=8, unwind_loops={'.': 8}, timeout=1500, object_bits=12,
+         bounded='one concrete geometry, symbolic int elements, all loops unwound 8 times', waive=[r'arithmetic overflow on (signed to unsigned|unsigned to signed) type conversion'],
+         clause='squeeze of a (2,1,3) array: shape and every element as NumPy'),
+    Unit('k.flatten.bounded', 'c03k', 'verif_k_flatten', mode='bp', plain=True, unwind=8, unwind_loops={'.': 8}, timeout=1500, object_bits=12,
+         bounded='one concrete geometry, symbolic int elements, all loops unwound 8 times', waive=[r'arithmetic overflow on (signed to unsigned|unsigned to signed) type conversion'],
+         clause='flatten of the transposed (2,3) array: C order of the view: shape and every element as NumPy'),
+    Unit('k.flip_axis.bounded', 'c03k', 'verif_k_flip_axis', mode='bp', plain=True, unwind=8, unwind_loops={'.': 8}, timeout=1500, object_bits=12,
+         bounded='one concrete geometry, symbolic int elements, all loops unwound 8 times', waive=[r'arithmetic overflow on (signed to unsigned|unsigned to signed) type conversion'],
+         clause='flip(axis=0) of a (2,3) array: shape and every element as NumPy'),
+    Unit('k.flip_none.bounded', 'c03k', 'verif_k_flip_none', mode='bp', plain=True, unwind=8, unwind_loops={'.': 8}, timeout=1500, object_bits=12,
+         bounded='one concrete geometry, symbolic int elements, all loops unwound 8 times', waive=[r'arithmetic overflow on (signed to unsigned|unsigned to signed) type conversion'],
+         clause='flip(None) of a (2,3) array: every axis: shape and every element as NumPy'),
+    Unit('k.reshape.bounded', 'c03k', 'verif_k_reshape', mode='bp', plain=True, unwind=8, unwind_loops={'.': 8}, timeout=1500, object_bits=12,
+         bounded='one concrete geometry, symbolic int elements, all loops unwound 8 times', waive=[r'arithmetic overflow on (signed to unsigned|unsigned to signed) type conversion'],
+         clause='reshape (2,3) -> (3,-1): shape and every element as NumPy'),
+
     Unit('normalize_axis.bp', 'c03', 'verif_normalize_axis', mode='bp', unwind=10, clause='axis arguments: valid iff -ndim <= axis < ndim, value axis mod ndim'),
     Unit('normalize_axes.bp', 'c03', 'verif_normalize_axes', mode='bp', unwind=10, clause='axis lists: valid iff every entry is; entries normalised'),
     Unit('shape_transpose_none.bp', 'c03', 'verif_shape_transpose_none', mode='bp', unwind=10, clause='transpose default: shape reversed'),
